@@ -21,6 +21,17 @@ import (
 
 type Verdict struct{ Class, Msg string }
 
+// normType: the declared type as the planner writes it back (sqlite.FormatType drops the
+// size / precision arguments: varchar(255) -> varchar); "the same type" of the property is
+// equality of this name.
+func normType(t string) string {
+	t = strings.ToLower(strings.TrimSpace(t))
+	if i := strings.IndexByte(t, '('); i >= 0 {
+		t = strings.TrimSpace(t[:i])
+	}
+	return t
+}
+
 type oracleIn struct {
 	ctx      context.Context
 	cur, des *Schema
@@ -90,7 +101,7 @@ func preserved(in *oracleIn, tb, ta *TableDump, specName string, useGen bool) (v
 			continue
 		}
 		ca := ta.Cols[ai]
-		if ca.Type != cb.Type {
+		if normType(ca.Type) != normType(cb.Type) {
 			continue
 		}
 		if cb.Hidden == 0 && ca.Hidden == 0 {
@@ -119,10 +130,16 @@ func preserved(in *oracleIn, tb, ta *TableDump, specName string, useGen bool) (v
 			ps = append(ps, p)
 		}
 	}
+	// a new column that is the rowid alias gets the rowid of each row (engine rule)
+	for ai := range ta.Cols {
+		if tb.colIdx(ta.Cols[ai].Name) < 0 && isRowidAlias(ta, ai) && len(tb.Rows) > 0 {
+			st.aliasNull++
+		}
+	}
 	if useGen {
 		for bi, cb := range tb.Cols {
 			ai := ta.colIdx(cb.Name)
-			if ai < 0 || cb.Hidden == 0 || ta.Cols[ai].Hidden == 0 || ta.Cols[ai].Type != cb.Type {
+			if ai < 0 || cb.Hidden == 0 || ta.Cols[ai].Hidden == 0 || normType(ta.Cols[ai].Type) != normType(cb.Type) {
 				continue
 			}
 			if same, dep := genSame(in.cur, in.des, specName, cb.Name); same {
